@@ -1,5 +1,565 @@
-//! C18 - monitor not built yet.
+//! C18 - Reading AS OF a past point returns what was current then.
+//!
+//! Record/replay differential between the live engine (index-driven) and the historical engine
+//! (version-log reconstruction): histories of committed statements; after every commit `s` a
+//! battery of queries is executed and recorded; after later commits and at the end every recorded
+//! answer is replayed with `AS OF SEQ s` / `AS OF TX <tx of s>` / `AS OF TIME <committed_at of s>`
+//! and must be equal. Plus: the epistemic payload of every Assertion / Evidence is identical in
+//! all of its version rows (direct scan of `element_versions`).
+
+use anda_cognitive_nexus::CognitiveNexus;
+use anda_cognitive_nexus::nexus::DEFAULT_SPACE;
+use anda_cognitive_nexus::schema::SchemaLock;
+use object_store::memory::InMemory;
+use serde_json::{Map, Value};
+use std::collections::{BTreeMap, BTreeSet};
+use std::sync::Arc;
+use v_nexus::nx1718::*;
+use vcore::{Rng, Run, Stats, json};
+
+// ---------------------------------------------------------------------------------------------
+// the battery
+
+#[derive(Clone, Debug)]
+struct Q {
+    family: &'static str,
+    /// `FIND(..) WHERE { .. }`
+    head: String,
+    /// everything after the AS OF position: FOR TIME / WITH EPISTEMIC / ORDER BY / LIMIT / CURSOR
+    tail: String,
+    params: Map<String, Value>,
+    /// row order is part of the answer
+    ordered: bool,
+}
+
+impl Q {
+    fn text(&self, as_of: &str) -> String {
+        let mut t = self.head.clone();
+        if !as_of.is_empty() {
+            t.push(' ');
+            t.push_str(as_of);
+        }
+        if !self.tail.is_empty() {
+            t.push(' ');
+            t.push_str(&self.tail);
+        }
+        t
+    }
+}
+
+fn q(family: &'static str, head: impl Into<String>) -> Q {
+    Q { family, head: head.into(), tail: String::new(), params: Map::new(), ordered: false }
+}
+
+impl Q {
+    fn tail(mut self, t: impl Into<String>) -> Q {
+        self.tail = t.into();
+        self.ordered = self.tail.contains("ORDER BY");
+        self
+    }
+    fn p(mut self, k: &str, v: &str) -> Q {
+        self.params.insert(k.into(), json!(v));
+        self
+    }
+}
+
+fn for_pin() -> String {
+    format!("FOR TIME \"{PIN_TIME}\"")
+}
+
+/// The battery at one coordinate: fixed query shapes, the id-bearing ones instantiated with
+/// elements that exist now (seeded choice).
+fn battery(w: &World, all: &World, rng: &mut Rng) -> Vec<Q> {
+    let mut b = vec![
+        // element patterns (whole views: every field incl. _system is compared)
+        q("element", "FIND(?c) WHERE { ?c CONCEPT {} }"),
+        q("element", "FIND(?c.id, ?c.name, ?c.attributes, ?c.facets) WHERE { ?c CONCEPT {type: \"Person\"} }"),
+        q("element", "FIND(?c.id, ?c._system.version) WHERE { ?c CONCEPT {type: \"Insight\"} }"),
+        q("element", "FIND(?c) WHERE { ?c CONCEPT {state: \"archived\"} }"),
+        q("element", "FIND(?c.id, ?c._system) WHERE { ?c CONCEPT {state: \"tombstoned\"} }"),
+        q("element", "FIND(?c.id, ?c._system.state) WHERE { ?c CONCEPT {state: \"merged\"} }"),
+        q("element", "FIND(?a) WHERE { ?a ASSERTION {} }"),
+        q("element", "FIND(?a.id, ?a.lifecycle) WHERE { ?a ASSERTION {status: \"retracted\"} }"),
+        q("element", "FIND(?a.id, ?a.lifecycle) WHERE { ?a ASSERTION {status: \"superseded\"} }"),
+        q("element", "FIND(?a.id, ?a.confidence) WHERE { ?a ASSERTION {stance: \"support\", mode: \"stated\"} }"),
+        q("element", "FIND(?a.id, ?p) WHERE { ?a ASSERTION {proposition: ?p} }"),
+        q("element", "FIND(?e) WHERE { ?e EVIDENCE {} }"),
+        q("element", "FIND(?e.id, ?e.lifecycle) WHERE { ?e EVIDENCE {status: \"corrected\"} }"),
+        q("element", "FIND(?x) WHERE { ?x ACTIVITY {} }"),
+        q("element", "FIND(?x.id) WHERE { ?x ACTIVITY {status: \"completed\"} }"),
+        q("element", "FIND(?x.id, ?x._system.state) WHERE { ?x ACTIVITY {state: \"archived\"} }"),
+        // tuple patterns
+        q("tuple", "FIND(?p) WHERE { ?p PROPOSITION (?s, ?pr, ?o) }"),
+        q("tuple", "FIND(?p.id, ?s.name, ?o.name) WHERE { ?p PROPOSITION (?s, \"prefers\", ?o) }"),
+        q("tuple", "FIND(?s.id, ?pr, ?o.id) WHERE { (?s, ?pr, ?o) }"),
+        q("tuple", "FIND(?x.id, ?y.id) WHERE { (?x, \"prefers\" | \"same_as\", ?y) }"),
+        // structural
+        q("structural", "FIND(?x.id, ?y.id) WHERE { STRUCTURAL (?x, \"about\", ?y) }"),
+        q("structural", "FIND(?x.name, ?y.name) WHERE { STRUCTURAL (?x, \"mentions\", ?y) }"),
+        // hop-quantified paths
+        q("path", "FIND(?a.id, ?b.id) WHERE { (?a, \"same_as\"{1,3}, ?b) }"),
+        q("path", "FIND(?a.id, ?b.id) WHERE { ?a CONCEPT {type: \"Person\"} (?a, \"same_as\"{0,2}, ?b) }"),
+        q("path", "FIND(?a.id, ?b.id) WHERE { (?a, \"prefers\"{1,2} | \"same_as\"{2}, ?b) }"),
+        // NOT / OPTIONAL / UNION
+        q("not_optional_union", "FIND(?c.id) WHERE { ?c CONCEPT {type: \"Person\"} NOT { (?c, \"prefers\", ?x) } }"),
+        q("not_optional_union", "FIND(?c.id, ?x.id) WHERE { ?c CONCEPT {type: \"Person\"} OPTIONAL { (?c, \"prefers\", ?x) } }"),
+        q("not_optional_union", "FIND(?c.id) WHERE { ?c CONCEPT {type: \"Insight\"} UNION { ?c CONCEPT {type: \"Event\"} } }"),
+        q("not_optional_union", "FIND(?a.id) WHERE { ?a ASSERTION {} NOT { ?a ASSERTION {status: \"active\"} } }"),
+        // FILTER
+        q("filter", "FIND(?c.id, ?c.attributes.note) WHERE { ?c CONCEPT {} FILTER(?c.attributes.note > 40) }"),
+        q("filter", "FIND(?c.id) WHERE { ?c CONCEPT {} FILTER(CONTAINS(?c.name, \"1\")) }"),
+        q("filter", "FIND(?c.id, ?c._system.version) WHERE { ?c CONCEPT {} FILTER(?c._system.version > 1) }"),
+        q("filter", "FIND(?a.id) WHERE { ?a ASSERTION {} FILTER(?a.confidence >= 0.5 && ?a.lifecycle.status == \"active\") }"),
+        q("filter", "FIND(?c.id) WHERE { ?c CONCEPT {} FILTER(?c.facets[\"MnemonicState\"].salience > 0.4) }"),
+        q("filter", "FIND(?c.id) WHERE { ?c CONCEPT {} FILTER(IS_NOT_NULL(?c.retention.retention_class)) }"),
+        // aggregates
+        q("aggregate", "FIND(COUNT(?c)) WHERE { ?c CONCEPT {} }"),
+        q("aggregate", "FIND(COUNT(?p), COUNT(DISTINCT ?s)) WHERE { ?p PROPOSITION (?s, ?pr, ?o) }"),
+        q("aggregate", "FIND(MAX(?a.confidence), MIN(?a.confidence), AVG(?a.confidence)) WHERE { ?a ASSERTION {} }"),
+        q("aggregate", "FIND(SUM(?c.attributes.note)) WHERE { ?c CONCEPT {type: \"Person\"} }"),
+        q("aggregate", "FIND(COUNT(?e)) WHERE { ?e EVIDENCE {status: \"active\"} }"),
+        // ORDER BY + LIMIT (sort keys are unique per row by construction)
+        q("order_limit", "FIND(?c.id, ?c.name) WHERE { ?c CONCEPT {} }").tail("ORDER BY ?c.name DESC LIMIT 3"),
+        q("order_limit", "FIND(?c.id, ?c._system.version) WHERE { ?c CONCEPT {} }").tail("ORDER BY ?c._system.version DESC, ?c.id ASC LIMIT 4"),
+        q("order_limit", "FIND(?a.id, ?a.confidence) WHERE { ?a ASSERTION {} }").tail("ORDER BY ?a.confidence ASC, ?a.id DESC LIMIT 3"),
+        q("order_limit", "FIND(?c.id) WHERE { ?c CONCEPT {} }").tail("ORDER BY ?c.id ASC LIMIT 2 CURSOR 2"),
+        // BELIEF (world time pinned)
+        q("belief", "FIND(?p.id, ?b) WHERE { ?p PROPOSITION (?s, ?pr, ?o) ?b BELIEF (?p) }").tail(for_pin()),
+        q("belief", "FIND(?p.id, ?b.status, ?b.support.score, ?b.opposition.score) WHERE { ?p PROPOSITION (?s, \"prefers\", ?o) ?b BELIEF (?p) }")
+            .tail("FOR TIME \"2027-01-01T00:00:00Z\""),
+        q("belief", "FIND(?p.id, ?b.status) WHERE { ?p PROPOSITION (?s, ?pr, ?o) ?b BELIEF (?p) }")
+            .tail(format!("{} WITH EPISTEMIC {{purpose: \"answer_user\", risk: \"low\", include_hypothetical: true, explanation: \"ledger\"}}", for_pin())),
+        // FOR TIME on raw assertion rows
+        q("for_time", "FIND(?a.id) WHERE { ?a ASSERTION {} }").tail("FOR TIME \"2027-01-01T00:00:00Z\""),
+        q("for_time", "FIND(?a.id) WHERE { ?a ASSERTION {} }").tail("FOR TIME \"2032-01-01T00:00:00Z\""),
+    ];
+    // id-bearing instances
+    let pick = |v: &[El], rng: &mut Rng| -> Option<El> { if v.is_empty() { None } else { Some(rng.pick(v).clone()) } };
+    if let Some(c) = pick(&all.concepts, rng) {
+        b.push(q("element", format!("FIND(?c) WHERE {{ ?c CONCEPT {{id: {}}} }}", jstr(&c.id))));
+        b.push(q("element", format!("FIND(?c.id, ?c._system.state) WHERE {{ ?c CONCEPT {{id: {}, state: {}}} }}", jstr(&c.id), jstr(&c.state))));
+        b.push(q("tuple", "FIND(?p.id, ?o) WHERE { ?p PROPOSITION (:s, ?pr, ?o) }").p("s", &c.id));
+        b.push(q("structural", "FIND(?y.id) WHERE { STRUCTURAL (:x, \"about\", ?y) }").p("x", &c.id));
+        b.push(q("path", "FIND(?b.id) WHERE { (:a, \"same_as\"{1,3}, ?b) }").p("a", &c.id));
+        b.push(q("belief_slot", "FIND(?slot) WHERE { ?slot BELIEF SLOT (:c, \"prefers\") }").p("c", &c.id).tail(for_pin()));
+        b.push(q("belief_slot", "FIND(?slot) WHERE { ?slot BELIEF SLOT (:c, \"same_as\") }").p("c", &c.id).tail(for_pin()));
+    }
+    if let Some(c) = all.concepts.iter().find(|c| !c.key.is_empty()) {
+        b.push(q("element", format!("FIND(?c.id, ?c.name) WHERE {{ ?c CONCEPT {{type: {}, key: {}}} }}", jstr(&c.typ), jstr(&c.key))));
+    }
+    if let Some(p) = pick(&all.props, rng) {
+        b.push(q("tuple", format!("FIND(?p, ?s.id) WHERE {{ ?p PROPOSITION (id: {}) }}", jstr(&p.id)).replace(", ?s.id", "")));
+        b.push(q("belief", format!("FIND(?b) WHERE {{ ?b BELIEF (id: {}) }}", jstr(&p.id))).tail(for_pin()));
+        b.push(q("element", format!("FIND(?a.id, ?a.stance) WHERE {{ ?a ASSERTION {{proposition: {}}} }}", jstr(&p.id))));
+        if !p.subject.is_empty() && !p.object.is_empty() {
+            b.push(q("belief", "FIND(?b.status, ?b.support) WHERE { ?b BELIEF (:s, :pr, :o) }")
+                .p("s", &p.subject).p("pr", &p.typ).p("o", &p.object).tail(for_pin()));
+            b.push(q("tuple", "FIND(?p.id) WHERE { ?p PROPOSITION (:s, :pr, :o) }").p("s", &p.subject).p("pr", &p.typ).p("o", &p.object));
+        }
+    }
+    if let (Some(a), Some(c)) = (pick(&w.concepts, rng), pick(&w.concepts, rng)) {
+        // a tuple that was (most likely) never stored: BELIEF answers `insufficient`, not zero rows
+        b.push(q("belief", "FIND(?b.status) WHERE { ?b BELIEF (:s, \"same_as\", :o) }").p("s", &a.id).p("o", &c.id).tail(for_pin()));
+    }
+    if let Some(a) = pick(&all.assertions, rng) {
+        b.push(q("element", format!("FIND(?a) WHERE {{ ?a ASSERTION {{id: {}}} }}", jstr(&a.id))));
+    }
+    if let Some(e) = pick(&all.evidence, rng) {
+        b.push(q("element", format!("FIND(?e) WHERE {{ ?e EVIDENCE {{id: {}}} }}", jstr(&e.id))));
+    }
+    b
+}
+
+/// every element of the default Space regardless of state (the id-bearing queries also target
+/// archived / tombstoned / merged ones)
+fn world_all(scan: &Scan) -> World {
+    let mut w = world_of(scan);
+    w.foreign_concept = None;
+    w
+}
+
+fn world_active(w: &World) -> World {
+    let f = |v: &Vec<El>| v.iter().filter(|e| e.state == "active").cloned().collect();
+    World {
+        concepts: f(&w.concepts),
+        props: f(&w.props),
+        assertions: f(&w.assertions),
+        evidence: f(&w.evidence),
+        activities: f(&w.activities),
+        foreign_concept: None,
+    }
+}
+
+// ---------------------------------------------------------------------------------------------
+// answers and their comparison
+
+/// `Ok(payload)` or `Err(error code)`; only the operation result payload is an answer.
+async fn ask(nexus: &CognitiveNexus, qu: &Q, as_of: &str) -> Result<Result<Value, String>, String> {
+    let mut cmd = Cmd::new(qu.text(as_of));
+    cmd.params = qu.params.clone();
+    let o = exec(&Via::System(nexus), &cmd).await?;
+    if let Some(p) = o.parse_error {
+        return Err(format!("battery query does not parse: {p}: {}", cmd.text));
+    }
+    Ok(if o.succeeded { Ok(o.result) } else { Err(o.error_code) })
+}
+
+fn deep_sort(v: &Value) -> Value {
+    match v {
+        Value::Array(a) => {
+            let mut a: Vec<Value> = a.iter().map(deep_sort).collect();
+            a.sort_by_key(canon);
+            Value::Array(a)
+        }
+        Value::Object(m) => Value::Object(m.iter().map(|(k, v)| (k.clone(), deep_sort(v))).collect()),
+        x => x.clone(),
+    }
+}
+
+#[derive(PartialEq, Debug)]
+enum Cmp {
+    Equal,
+    /// equal once array order is ignored where it carries no meaning
+    OrderOnly,
+    Different,
+}
+
+fn compare(live: &Result<Value, String>, replay: &Result<Value, String>, ordered: bool) -> Cmp {
+    match (live, replay) {
+        (Err(a), Err(b)) => {
+            if a == b { Cmp::Equal } else { Cmp::Different }
+        }
+        (Ok(a), Ok(b)) => {
+            if canon(a) == canon(b) {
+                return Cmp::Equal;
+            }
+            let norm = |v: &Value| -> Value {
+                match (ordered, v) {
+                    // ORDER BY: the row sequence is the answer, only the inside of a row is free
+                    (true, Value::Array(rows)) => Value::Array(rows.iter().map(deep_sort).collect()),
+                    _ => deep_sort(v),
+                }
+            };
+            if canon(&norm(a)) == canon(&norm(b)) { Cmp::OrderOnly } else { Cmp::Different }
+        }
+        _ => Cmp::Different,
+    }
+}
+
+struct Recorded {
+    seq: u64,
+    tx_id: String,
+    committed_at: String,
+    /// what kind of commit produced the coordinate
+    kinds: Vec<&'static str>,
+    qs: Vec<(Q, Result<Value, String>)>,
+}
+
+// ---------------------------------------------------------------------------------------------
+// payload immutability (direct scan of the version log)
+
+const ASSERTION_PAYLOAD: [&str; 12] = [
+    "proposition_id", "asserted_by", "asserted_by_key", "stance", "mode", "confidence", "asserted_at",
+    "valid_from", "valid_until", "evidence_refs", "evidence_ids", "context_refs",
+];
+const EVIDENCE_PAYLOAD: [&str; 10] = [
+    "evidence_class", "payload_mode", "payload_inline", "content_ref", "content_digest", "media_type",
+    "observed_at", "source_refs", "source_keys", "generated_by",
+];
+
+fn check_payloads(scan: &Scan, st: &mut Stats, ctx: &dyn Fn() -> Value) {
+    let mut per: BTreeMap<String, Vec<&Value>> = BTreeMap::new();
+    for r in scan["element_versions"].values() {
+        let el = r["element"].as_str().unwrap_or("");
+        if el.starts_with("A-") || el.starts_with("E-") {
+            per.entry(el.to_string()).or_default().push(r);
+        }
+    }
+    let cur = elements(scan);
+    for (el, rows) in per {
+        let fields: &[&str] = if el.starts_with("A-") { &ASSERTION_PAYLOAD } else { &EVIDENCE_PAYLOAD };
+        let pay = |row: &Value| -> String { canon(&Value::Array(fields.iter().map(|f| row[*f].clone()).collect())) };
+        let first = pay(&rows[0]["row"]);
+        st.count("oracle_payload_immutable");
+        if rows.len() > 1 {
+            st.count("payload_checked_over_several_versions");
+        }
+        let mut all: Vec<String> = rows.iter().map(|r| pay(&r["row"])).collect();
+        if let Some(c) = cur.get(&el) {
+            if c["state"] != "purged" {
+                all.push(pay(c));
+            }
+        }
+        if all.iter().any(|p| *p != first) {
+            report_once(st, "C18/payload/epistemic_payload_differs_between_versions", || {
+                json!({"element": el, "payloads": all, "fields": fields, "context": ctx()})
+            });
+        }
+    }
+}
+
+// ---------------------------------------------------------------------------------------------
+
+fn hist_case(case: u64, rng: &mut Rng, st: &mut Stats, n_commits: usize, mid_replays: usize) {
+    let r = vcore::run::block_on(hist_case_async(case, rng, st, n_commits, mid_replays));
+    if let Err(e) = r {
+        st.inconclusive(format!("C18: harness trouble: {e}"));
+    }
+}
+
+#[allow(clippy::too_many_arguments)]
+async fn replay_one(
+    nexus: &CognitiveNexus,
+    rec: &Recorded,
+    form: &'static str,
+    as_of: &str,
+    since: &BTreeSet<&'static str>,
+    only: Option<&BTreeSet<usize>>,
+    st: &mut Stats,
+    ctx: &dyn Fn() -> Value,
+) -> Result<(), String> {
+    for (i, (qu, live)) in rec.qs.iter().enumerate() {
+        if only.map(|o| !o.contains(&i)).unwrap_or(false) {
+            continue;
+        }
+        let got = ask(nexus, qu, as_of).await?;
+        st.eval();
+        st.count(&format!("replayed:{form}"));
+        st.count(&format!("replayed_family:{}", qu.family));
+        st.set("replayed_query_x_form", vcore::fnv_str(&format!("{}{}{form}", qu.head, qu.tail)));
+        for k in since {
+            st.count(&format!("replayed_after:{k}"));
+        }
+        if let (Ok(_), Err(code)) = (live, &got) {
+            if code == "UnsupportedCapability" {
+                st.count(&format!("replay_refused_as_unsupported:{}", qu.family));
+                continue;
+            }
+        }
+        match compare(live, &got, qu.ordered) {
+            Cmp::Equal => st.count("replay_equal"),
+            Cmp::OrderOnly => st.count(&format!("replay_differs_in_unordered_positions_only:{}", qu.family)),
+            Cmp::Different => {
+                let (qu, live, got) = (qu.clone(), live.clone(), got.clone());
+                let since: Vec<&str> = since.iter().copied().collect();
+                report_once(st, &format!("C18/replay/{}/{form}", qu.family), || {
+                    json!({"what": "the answer AS OF a past coordinate differs from the answer recorded when that coordinate was current",
+                           "query": qu.text(as_of), "parameters": qu.params, "recorded_at_seq": rec.seq,
+                           "recorded": live.as_ref().map(|v| clip(&canon(v))).map_err(|e| e.clone()),
+                           "replayed": got.as_ref().map(|v| clip(&canon(v))).map_err(|e| e.clone()),
+                           "mutation_kinds_since": since, "context": ctx()})
+                });
+            }
+        }
+    }
+    Ok(())
+}
+
+async fn hist_case_async(case: u64, rng: &mut Rng, st: &mut Stats, n_commits: usize, mid_replays: usize) -> Result<(), String> {
+    let nexus = open_nexus(Arc::new(InMemory::new()), &format!("c18_{case}")).await?;
+    activate_profile(&nexus).await?;
+    let mut g = Gen { uid: 0, tag: format!("h{case}") };
+    let spaced = rng.chance(2, 3); // keep commit timestamps apart (workload shaping only)
+    let with_schema_events = rng.chance(1, 3);
+    let mut core_only_left = 0usize;
+    let mut recorded: Vec<Recorded> = vec![];
+    let mut history: Vec<Value> = vec![];
+    let mut attempts = 0;
+    let mut kinds_seen: BTreeSet<&'static str> = BTreeSet::new();
+    while recorded.len() < n_commits && attempts < n_commits * 3 {
+        attempts += 1;
+        let sc = scan(&nexus).await?;
+        let w = world_of(&sc);
+        // --- one history step: a KML statement or a schema activation
+        let (seq, tx_id, committed_at, kinds): (u64, String, String, Vec<&'static str>);
+        let schema_step = with_schema_events && recorded.len() >= 3 && (core_only_left == 1 || (core_only_left == 0 && rng.chance(1, 9)));
+        if schema_step {
+            let to_core = core_only_left == 0;
+            let lock = if to_core { SchemaLock::default() } else { profile_lock() };
+            nexus.activate_schema(DEFAULT_SPACE, lock).await.map_err(|e| format!("activate_schema: {e:?}"))?;
+            core_only_left = if to_core { 1 + rng.usize(2) + 1 } else { 0 };
+            let sc2 = scan(&nexus).await?;
+            let s = space_seq(&sc2);
+            let row = sc2["transactions"].values().find(|r| r["seq"].as_u64() == Some(s) && r["space"] == DEFAULT_SPACE)
+                .ok_or("activation left no journal row")?.clone();
+            seq = s;
+            tx_id = row["tx_id"].as_str().unwrap_or("").to_string();
+            committed_at = row["committed_at"].as_str().unwrap_or("").to_string();
+            kinds = vec![if to_core { "schema_activation_core_only" } else { "schema_activation_profile" }];
+            history.push(json!({"host": "activate_schema", "lock": if to_core { "empty (core only)" } else { "profile 2.0.0" }, "seq": s}));
+        } else {
+            if core_only_left > 1 {
+                core_only_left -= 1;
+            }
+            let stmt = gen_stmt(rng, &mut g, &w, None, &CFG_C18);
+            let out = exec(&Via::System(&nexus), &stmt.cmd).await?;
+            history.push(json!({"cmd": stmt.cmd.describe(),
+                "outcome": if out.committed() { format!("{}@{}", out.receipt_status, out.space_seq.unwrap_or(0)) } else { format!("refused:{}", out.error_code) }}));
+            if !out.committed() {
+                st.count("history_statements_refused");
+                continue;
+            }
+            if out.receipt_status != "committed" {
+                st.count("history_statements_no_effect");
+            }
+            seq = out.space_seq.unwrap();
+            tx_id = out.tx_id.clone().unwrap_or_default();
+            committed_at = out.committed_at.clone().unwrap_or_default();
+            // the kinds that really changed something, from the receipt's change list
+            let mut ks: Vec<&'static str> = vec![];
+            for (id, op, _) in out.changes() {
+                let kind = match (op.as_str(), &id[..1]) {
+                    ("create", "C") => "create_concept",
+                    ("create", "P") => "create_proposition",
+                    ("create", "A") => "create_assertion",
+                    ("create", "E") => "create_evidence",
+                    ("create", "X") => "create_activity",
+                    ("update", "P") => "update_proposition",
+                    ("update", _) => "update_concept",
+                    ("archive", _) => "archive",
+                    ("tombstone", _) => "tombstone",
+                    ("retract", _) => "retract",
+                    ("supersede", _) => "supersede",
+                    ("merge", _) => "merge",
+                    ("set_retention", _) => "set_retention",
+                    ("transition", _) => "transition",
+                    ("correct", _) => "correct_evidence",
+                    _ => "other",
+                };
+                ks.push(kind);
+            }
+            for k in &stmt.kinds {
+                if matches!(*k, "update_again" | "update_sweep" | "upsert_hit" | "assert_sugar") {
+                    ks.push(k);
+                }
+            }
+            kinds = ks;
+        }
+        st.count("history_commits");
+        for k in &kinds {
+            st.count(&format!("commit_kind:{k}"));
+            kinds_seen.insert(k);
+        }
+        // --- record the battery at this coordinate
+        let sc = scan(&nexus).await?;
+        if space_seq(&sc) != seq {
+            return Err(format!("space counter {} is not the commit sequence {seq}", space_seq(&sc)));
+        }
+        let all = world_all(&sc);
+        let act = world_active(&all);
+        let mut qs = vec![];
+        for qu in battery(&act, &all, rng) {
+            let a = ask(&nexus, &qu, "").await?;
+            st.count("battery_recorded");
+            st.count(&format!("recorded_family:{}", qu.family));
+            if a.is_err() {
+                st.count("battery_recorded_error_answers");
+            }
+            qs.push((qu, a));
+        }
+        recorded.push(Recorded { seq, tx_id, committed_at, kinds, qs });
+        let hist2 = history.clone();
+        let cx = move || json!({"case": case, "history": hist2});
+        check_payloads(&sc, st, &cx);
+        if spaced {
+            std::thread::sleep(std::time::Duration::from_micros(1200));
+        }
+        // --- replay a few earlier coordinates now (the one just before is the sharpest)
+        let n = recorded.len();
+        if n >= 2 {
+            let mut targets: BTreeSet<usize> = BTreeSet::new();
+            targets.insert(n - 2);
+            for _ in 0..mid_replays {
+                targets.insert(rng.usize(n - 1));
+            }
+            for i in targets {
+                let since: BTreeSet<&'static str> = recorded[i + 1..].iter().flat_map(|r| r.kinds.iter().copied()).collect();
+                let rec = &recorded[i];
+                st.count("coordinates_replayed_after_a_later_commit");
+                replay_one(&nexus, rec, "SEQ", &format!("AS OF SEQ {}", rec.seq), &since, None, st, &cx).await?;
+            }
+        }
+    }
+    // --- the end: every coordinate, every query, every form
+    let sc = scan(&nexus).await?;
+    let hist2 = history.clone();
+    let cx = move || json!({"case": case, "history": hist2});
+    let journal: Vec<(u64, String)> = sc["transactions"].values().filter(|r| r["space"] == DEFAULT_SPACE)
+        .map(|r| (r["seq"].as_u64().unwrap_or(0), r["committed_at"].as_str().unwrap_or("").to_string())).collect();
+    for i in 0..recorded.len() {
+        let rec = &recorded[i];
+        let since: BTreeSet<&'static str> = recorded[i + 1..].iter().flat_map(|r| r.kinds.iter().copied()).collect();
+        st.count("coordinates_replayed_at_the_end");
+        replay_one(&nexus, rec, "SEQ", &format!("AS OF SEQ {}", rec.seq), &since, None, st, &cx).await?;
+        // TX and TIME resolve to the same coordinate; a seeded third of the battery each
+        let sub: BTreeSet<usize> = (0..rec.qs.len()).filter(|_| rng.chance(1, 3)).collect();
+        replay_one(&nexus, rec, "TX", &format!("AS OF TX {}", jstr(&rec.tx_id)), &since, Some(&sub), st, &cx).await?;
+        // AS OF TIME names the last commit at or before the instant: usable when no later
+        // journal row carries the same (or an earlier) timestamp
+        let unique = journal.iter().all(|(s, at)| *s <= rec.seq || at.as_str() > rec.committed_at.as_str())
+            && journal.iter().all(|(s, at)| *s >= rec.seq || at.as_str() <= rec.committed_at.as_str());
+        if unique && !rec.committed_at.is_empty() {
+            let sub: BTreeSet<usize> = (0..rec.qs.len()).filter(|_| rng.chance(1, 3)).collect();
+            replay_one(&nexus, rec, "TIME", &format!("AS OF TIME {}", jstr(&rec.committed_at)), &since, Some(&sub), st, &cx).await?;
+        } else {
+            st.count("as_of_time_skipped_equal_commit_timestamps");
+        }
+    }
+    // coordinate 0 is the empty Space, whatever happened later
+    for qu in [q("element", "FIND(?c) WHERE { ?c CONCEPT {} }"), q("tuple", "FIND(?p) WHERE { ?p PROPOSITION (?s, ?pr, ?o) }"), q("aggregate", "FIND(COUNT(?a)) WHERE { ?a ASSERTION {} }")] {
+        let got = ask(&nexus, &qu, "AS OF SEQ 0").await?;
+        st.count("replayed:SEQ0");
+        let ok = match &got {
+            Ok(v) => v.as_array().map(|a| a.is_empty() || a == &vec![json!(0)]).unwrap_or(false),
+            Err(_) => false,
+        };
+        if !ok {
+            report_once(st, "C18/replay/coordinate_zero_not_empty", || json!({"query": qu.text("AS OF SEQ 0"), "answer": format!("{got:?}"), "context": cx()}));
+        }
+    }
+    check_payloads(&sc, st, &cx);
+    if recorded.len() >= n_commits / 2 && kinds_seen.len() >= 6 {
+        st.distinct(vcore::hash_debug(&history));
+    }
+    st.max("max_commits_in_a_history", recorded.len() as u64);
+    st.sample(|| json!({"monitor": "record/replay", "case": case, "commits": recorded.len(),
+        "kinds": kinds_seen, "first_statements": history.iter().take(4).collect::<Vec<_>>()}));
+    Ok(())
+}
+
 fn main() {
-    println!("INCONCLUSIVE property=C18 monitor not built yet");
-    std::process::exit(2);
+    let mut run = Run::from_args(
+        "C18",
+        "exploration",
+        "seeded histories of committed KML statements (create / update / archive / tombstone / \
+         retract / supersede / merge / retention / transition / correction, schema activations to \
+         a core-only environment and back) over the bundled profile; a history is non-trivial \
+         when at least half of the planned commits landed and >= 6 mutation kinds occurred \
+         (distinct by statement texts)",
+    );
+    run.assume("an answer is the operation's result payload; the response envelope (context.schema_environment_version, space_id, receipt, next_cursor) names the read coordinate/environment and is excluded; nothing inside a payload is excluded");
+    run.assume("row order is compared only for queries with ORDER BY (their sort keys are unique per row); otherwise, and for id lists inside a BELIEF ledger, order-only differences are counted, not asserted");
+    run.assume("BELIEF / BELIEF SLOT / FOR TIME queries pin world time with FOR TIME so that `now` never enters an answer");
+    run.assume("AS OF TIME is replayed only for commits whose timestamp differs from every other journal row of the Space (equal timestamps are counted and skipped); SEARCH ... AS OF is documented as unsupported and is not in the battery; PURGE is not generated (the only statement allowed to change the past)");
+    run.assume("all reads run as the system Principal (current authorization applies to historical reads by specification)");
+    let t = run.tier;
+    run.parallel("hist", t.pick(48, 1500), 0.9, |c, rng, st| hist_case(c, rng, st, t.pick(18, 28), t.pick(1, 3)));
+    run.floor("history_commits", 300);
+    run.floor("battery_recorded", 10000);
+    run.floor("replayed:SEQ", 10000);
+    run.floor("replayed:TX", 1500);
+    run.floor("replayed:TIME", 500);
+    run.floor("coordinates_replayed_after_a_later_commit", 300);
+    run.floor("coordinates_replayed_at_the_end", 300);
+    run.floor("oracle_payload_immutable", 500);
+    run.floor("payload_checked_over_several_versions", 100);
+    for f in ["element", "tuple", "structural", "path", "not_optional_union", "filter", "aggregate", "order_limit", "belief", "belief_slot", "for_time"] {
+        run.floor(&format!("replayed_family:{f}"), 200);
+    }
+    for k in ["create_concept", "create_proposition", "create_assertion", "update_concept", "update_proposition", "archive", "tombstone", "retract", "supersede", "merge",
+              "set_retention", "transition", "correct_evidence", "schema_activation_core_only", "schema_activation_profile"] {
+        run.floor(&format!("replayed_after:{k}"), 200);
+    }
+    run.floor_set("replayed_query_x_form", 100);
+    run.finish();
 }
